@@ -180,3 +180,57 @@ CHECKS["C19"] = dict(
    technique="Lean 4 proof (encoder/decoder induction over lines, session invariants, file-system algebra for QUIT) + translator for command tables + exhaustive differential correspondence with the C programs",
    design="DESIGN.md §2 C19")
 
+CHECKS["C02"] = dict(
+   text="Theorems about EVERY state reachable from the empty queue by ANY sequence of system-call-granular events of any number of qmail-queue instances, qmail-send with its qmail-clean, further "
+        "qmail-send instances, the clock, kills and crashes (Lean model Nq.QueueSys; one event per directory operation; inductive invariant coupling each actor's control point to the files of its number, "
+        "proved for all 23 event kinds): every message number is always in one of S1-S5 of INTERNALS.md (C02_states); mess/n names inode n (C02_inode); a number is taken only in S1 and never shared "
+        "by two running injectors (C02_unique_*); every step is a documented move S1>S2>S3>S4>S5>S2>S1 / S3>S2 (C02_moves), bounce/n is removed only after local/remote, info/n only after those and bounce, "
+        "mess/n last (C02_order_*); qmail-send asks for collection of intd/mess only right after removing info/n itself or when inode n is older than OSSIFIED = 36 h and it saw no info and no todo - and "
+        "then these facts still hold and no running qmail-queue owns n, because DEATH < OSSIFIED (constants regenerated from the sources) (C02_stale, C02_stale_window, C02_timer); only the lock holder "
+        "changes the queue, a refused instance changes nothing (C02_mutex*); crash leaves a reachable state with the same files (C02_crash). The guards of the model are OS facts about succeeded calls "
+        "and the code's own observations (stat/unlink results since it last slept), never the documented states themselves. Tied to the code by running the real qmail-queue (3 instances), qmail-send "
+        "(2 instances) and qmail-clean as threads under the in-memory POSIX simulator with a seeded schedule decision before every queue-directory call, stalled/killed injectors, malformed envelopes, "
+        "single faults, aged leftovers of every kind, clock jumps, world crashes and restarts (2400/60000 scenarios): each trace is replayed through QueueSys.accept, the reconstructed directory is compared "
+        "with the simulator's dump, and the oracle evaluates the theorems' predicates on the concrete directory after every mutating call.",
+   note=NOTE_COMMON + "Modelled, not verified: OS semantics of DESIGN.md 1.4 as implemented by harness/sim.c (atomic synchronous directory operations, fresh inode numbers, alarm(n) lets no call happen n seconds "
+        "later, flock as mutex, atime of a new file = creation time); qmail-clean dies with its qmail-send; bounce injection is a stand-in (C01/C14); spawners scripted; readdir returns at least the entries present "
+        "during the whole scan. Schedules are sampled, not enumerated: the unbounded-interleaving claim rests on the theorem, the sampling ties the model to the code.",
+   technique="Lean 4 proof (inductive invariant of an interleaving system with unboundedly many actors, closed under kill/crash/restart; per-step documented-move theorem) + trace-replay correspondence with the real programs under a deterministic POSIX simulator (schedule, fault, stall, crash injection)",
+   design="DESIGN.md §2 C02, Appendix B")
+
+CHECKS["C12"] = dict(
+   text="Theorems over EVERY accepted system-call trace of the Lean acceptors of qmail-local.c maildir()+maildir_child() and mailfile() (hence every message, chunking, short write, "
+        "EINTR, failing open/read/write/fsync/close/link, alarm) and, by prefix-closure, every crash instant with un-fsynced data arbitrary: a name in new/ => the file is exactly "
+        "Return-Path line + Delivered-To line + message; exit 0 => present and durable; failure => 111 and absent (unless a signal hit the child after link: then complete); "
+        "new/ is populated only by link after open_excl, complete writes, fsync, close; the name time.pid.host determines time and pid; the exit-status switch is regenerated from the source. "
+        "Mbox: for ALL messages, senders, recipients, times the appended entry is read back by the mbox(5) reader (written independently from the man page) as exactly the old messages "
+        "plus (From_ line, Return-Path + Delivered-To + message with only a partial last line completed); header lines are single lines, the From_ line yields the sanitised sender; "
+        "gfrom = documented From_/>From_ test; for ANY number of concurrent deliveries and every interleaving with flock as a mutex the file is always old content + complete entries "
+        "in lock order + the holder's partial output, failed deliveries leave nothing (truncate to the saved length), final file = entries of exactly the exit-0 deliveries. "
+        "Tied to the current source by running the real qmail-local main() under the in-memory POSIX simulator (fork redirected so the maildir child runs as a second simulated process): "
+        "every crash point x 5 crash resolutions, every call index x {EIO, ENOSPC, short write, EINTR, alarm}, sizes around the 1024-byte buffers, name collisions, 2-3 concurrent "
+        "deliveries under enumerated schedules; every trace replayed through the acceptors; gfrom()/myctime() exhaustively/densely; oracle = maildir predicate on concrete crash states, "
+        "mboxRead on the concrete final file.",
+   note=NOTE_COMMON + "Modelled, not verified: OS semantics of DESIGN 1.4 (sim.c); (time,pid) unique among live deliveries; if lock_ex() fails the program proceeds unlocked and neither "
+        "serialisation nor roll-back holds (explicit hypothesis, exercised and counted in the evidence); old mbox not ending at a line boundary is outside the round-trip theorem; "
+        "mbox is not crash-atomic (only roll-back on errors is claimed); datetime_tai's calendar arithmetic is tied by correspondence only.",
+   technique="Lean 4 proof (acceptor invariants over all traces + crash relation; interleaving-system invariant for unboundedly many processes; list-level round trip through the mbox(5) reader) "
+             "+ exact trace correspondence with the real program under a deterministic POSIX simulator (crash, fault and schedule enumeration)",
+   design="DESIGN.md §2 C12")
+
+CHECKS["C20"] = dict(
+   text="PARTIAL proof. Proved for ALL lengths (Lean, no bound) about models of the code between untrusted input and memory: gen_allocdefs.h readyplus/ready/append, "
+        "stralloc_catb/copyb and quote.c doit() with the exact 32-bit arithmetic of __builtin_add/mul_overflow (success => len <= a, a*sizeof = bytes requested without wrap, every store "
+        "index < a; a request that does not fit 32 bits is refused untouched - the CVE-2005-1513 regime; doit()'s signed counter overflows iff len+esc+2 > INT_MAX, a real defect for >= 2^30-byte "
+        "addresses); substdio put/bput/flush/putflush/feed/get (0 <= p <= n, n+p = size, every byte_copy inside the buffer, caller buffer never overrun, stream laws for every write/read chunking); "
+        "the fixed buffers of qmail-qmqpd/qmail-qmtpd/qmail-getpw/qmail.c (sizes and guards regenerated from the sources), spawn.c slots and report truncation, REPORTMAX, pop3d msgno; dns.c "
+        "resolve/findname/findip/findmx (every read < responselen for every dn_expand honouring its contract; the pre-367ee1b code provably over-reads); the cdb reader on arbitrary files. "
+        "Tied to the current source by differential harnesses on the real functions (ASan+UBSan, exact-size blocks, scripted allocator/descriptors, interposed resolver with poisoned buffer tail). "
+        "NOT proved - covered only by sanitised execution: all other parser loops and whole programs: token822/cdb/control/constmap/ip/headerbody/getln in-process (~1.5M/13M cases) and the real "
+        "sanitised qmail-smtpd/-qmtpd/-qmqpd/-pop3d/-popup/-inject/-local binaries on every truncation point, declared lengths up to 2^31/2^32/2^64, thousands of tokens, nesting 50000 "
+        "(~12k/90k child runs); oracle = no sanitizer report/signal/hang, documented exit status.",
+   note=NOTE_COMMON + "Partial: absence of UB outside the modelled arithmetic is evidence by instrumented execution, not proof. Assumed: LP64, builtin overflow semantics, malloc(0) != NULL, "
+        "read/write return 1..len or -1, resolver returns -1 or 12..buflen bytes, dn_expand contract (checked at run time), fmt_ulong <= 20 digits. Slot/REPORTMAX/msgno/cdb theorems are about the "
+        "models of C18/C19/C11. Open defect: quote.c signed counters (notes/C20-fix-1.diff).",
+   technique="Lean 4 proof (bounds arithmetic over exact machine-integer models; inductive stream laws) + translator for buffer sizes/guards + differential correspondence + sanitised execution of real binaries",
+   design="DESIGN.md §2 C20")
